@@ -56,6 +56,10 @@ func (s Dyn) label() string {
 	return l
 }
 
+// the lines SendConfig / SendCommand send in every session (known to the device model)
+const cfgLine = "c17 set system name x"
+const cmdLine = "c17 show version"
+
 // devStats is what the device model counts.
 type devStats struct {
 	unknown   int
@@ -290,6 +294,20 @@ func drive(s Dyn, label string, eff *refPlatform, effDefault string, prompts map
 	res, _, _ := compileAll(eff.Levels)
 	class := func(l string) string { return prompts[l] }
 	startOnly := func(l string) bool { return eff.Levels[l].Prev != "" && eff.Levels[l].Esc == "" }
+	// a level without escalate command can still be asked for when it shares its prompt with a level
+	// that can be reached: levels with indistinguishable prompts are one place on the device, the
+	// empty command is how a definition says so (cumulus_linux/root_login)
+	acquirable := func(l string) bool {
+		if !startOnly(l) {
+			return true
+		}
+		for _, k := range sortedLevels(eff.Levels) {
+			if k != l && prompts[k] == prompts[l] && !(eff.Levels[k].Prev != "" && eff.Levels[k].Esc == "") {
+				return true
+			}
+		}
+		return false
+	}
 	unambiguous := func(l string) bool {
 		for _, k := range sortedLevels(eff.Levels) {
 			if class(k) != class(l) && accepts(eff.Levels[k], res[k], prompts[l]) {
@@ -336,6 +354,7 @@ func drive(s Dyn, label string, eff *refPlatform, effDefault string, prompts map
 			}
 		}
 	}
+	known[cfgLine], known[cmdLine] = true, true
 	buildDevice(dev, d.PrivilegeLevels, prompts, known, s.NL, start, st)
 
 	bad := func(key, f string, a ...interface{}) mon.Result {
@@ -393,7 +412,7 @@ func drive(s Dyn, label string, eff *refPlatform, effDefault string, prompts map
 	// ---- navigation: every (from, target) pair of the descriptor --------------------------------
 	nontrivial := len(eff.Levels) >= 2
 	place := func(l string) *mon.Result {
-		if startOnly(l) {
+		if !acquirable(l) {
 			if !unambiguous(l) {
 				return &mon.Result{Verdict: mon.Inconclusive, Detail: "start-only level with ambiguous prompt"}
 			}
@@ -425,7 +444,7 @@ func drive(s Dyn, label string, eff *refPlatform, effDefault string, prompts map
 		return nil
 	}
 	for _, tgt := range s.Targets {
-		if _, ok := eff.Levels[tgt]; !ok || startOnly(tgt) || tgt == s.From {
+		if _, ok := eff.Levels[tgt]; !ok || !acquirable(tgt) || tgt == s.From {
 			continue
 		}
 		if r := place(s.From); r != nil {
@@ -451,12 +470,50 @@ func drive(s Dyn, label string, eff *refPlatform, effDefault string, prompts map
 		if after == tgt {
 			obs["pairs_exact_level"]++
 		}
-		if startOnly(s.From) {
+		if !acquirable(s.From) {
 			obs["pairs_from_start_only_level"]++
+		}
+		if class(before) == class(tgt) {
+			obs["known_level_same_prompt_pairs"]++
 		}
 		tags = append(tags, fmt.Sprintf("pair=%s:%s->%s", label, s.From, tgt))
 	}
-	if s.CloseAt != "" && !startOnly(s.CloseAt) {
+	// ---- SendConfig / SendCommand from known levels ------------------------------------------------
+	sawLine := func(from int, line, wantClassOf string) (bool, string) {
+		ok, where := false, ""
+		conn.Do(func() {
+			for _, r := range dev.Lines[from:] {
+				if r.Line == line {
+					where = r.Mode
+					ok = class(r.Mode) == class(wantClassOf)
+				}
+			}
+		})
+		return ok, where
+	}
+	if _, has := eff.Levels["configuration"]; has && acquirable("configuration") {
+		for round := 0; round < 2; round++ {
+			_, _, n0 := snapshotLines(conn, dev, 0)
+			t0 := time.Now()
+			if _, err := d.SendConfig(cfgLine); err != nil {
+				return judgeErr("c17/send-config-failed:"+label, fmt.Sprintf("SendConfig (driver at known level %q)", d.CurrentPriv), err, t0)
+			}
+			if ok, where := sawLine(n0, cfgLine, "configuration"); !ok {
+				return bad("c17/send-config-wrong-level:"+label, "SendConfig returned nil; the device received the line in mode %q, not in the configuration level's class", where)
+			}
+			obs["send_config_from_known_level"]++
+			_, _, n0 = snapshotLines(conn, dev, 0)
+			t0 = time.Now()
+			if _, err := d.SendCommand(cmdLine); err != nil {
+				return judgeErr("c17/send-command-failed:"+label, fmt.Sprintf("SendCommand (driver at known level %q)", d.CurrentPriv), err, t0)
+			}
+			if ok, where := sawLine(n0, cmdLine, effDefault); !ok {
+				return bad("c17/send-command-wrong-level:"+label, "SendCommand returned nil; the device received the line in mode %q, not in the default desired level's class (%q)", where, effDefault)
+			}
+			obs["send_command_from_known_level"]++
+		}
+	}
+	if s.CloseAt != "" && acquirable(s.CloseAt) {
 		if _, ok := eff.Levels[s.CloseAt]; ok {
 			if r := place(s.CloseAt); r != nil {
 				return *r
